@@ -1072,6 +1072,26 @@ func (ce *CEnv) call(x *ECall) Val {
 			fv.note("model: bytes.Compare is a strict total order on contents (transitive)")
 		}
 		return boolVal("(bytes.lt " + sa + " " + sb + ")")
+	case "visited":
+		// visited(k) / visited(k, N): key k was already yielded by the map range loop (loop N of the function)
+		n := 0
+		if len(x.Args) > 1 {
+			if lit, ok := x.Args[1].(*EInt); ok {
+				fmt.Sscanf(lit.Val, "%d", &n)
+			}
+		}
+		rng := fv.rangeForVisited(n)
+		if rng == nil {
+			cfail("visited: no (unique) map range loop; write visited(k, N) with the loop number")
+		}
+		mt := rng.X.Type().Underlying().(*types.Map)
+		key := fv.seenKey(rng)
+		if _, have := fv.arrSort[key]; !have {
+			// the range statement has not been executed yet on this path: nothing visited
+			return boolVal("false")
+		}
+		k := ce.coerce(arg(0), mt.Key())
+		return boolVal("(select " + fv.heapGet(ce.st, key) + " " + k.S + ")")
 	case "has":
 		// has(m, k): key k is in map m
 		v := arg(0)
